@@ -3781,6 +3781,18 @@ impl Zeroconf {
             }
         };
 
+        // The socket is shared by all interfaces: select the outgoing interface first,
+        // otherwise the packet leaves on whichever interface was used last.
+        let pktinfo_sock = &sock.pktinfo;
+        let selected = match if_addr.ip() {
+            IpAddr::V4(ipv4) => pktinfo_sock.set_multicast_if_v4(&ipv4),
+            IpAddr::V6(_) => pktinfo_sock.set_multicast_if_v6(intf.index),
+        };
+        if let Err(e) = selected {
+            debug!("UnregisterResend: failed to set multicast interface: {}", e);
+            return;
+        }
+
         debug!("UnregisterResend from {:?}", if_addr);
         multicast_on_intf(
             &packet[..],
